@@ -79,6 +79,11 @@ def emit_stmts(o, scn, stmts, ctx):
             raise common.FaultInjected()
         elif k == "unique_vec":
             vsc.unique_vec(*[getattr(o, scn["lists"][li]["name"]) for li in s["ls"]])
+        elif k == "solve_order":
+            def ref(x):
+                with vsc.raw_mode():
+                    return getattr(o, scn["lists"][x["list"]]["name"] if "list" in x else scn["_names"][x["fld"]])
+            vsc.solve_order(ref(s["before"]), ref(s["after"]))
         elif k == "implies":
             with vsc.implies(emit_expr(o, scn, s["c"], ctx)):
                 emit_stmts(o, scn, s["b"], ctx)
